@@ -398,3 +398,27 @@ def seed_for(*parts):
 
 def rng_for(*parts):
     return random.Random(seed_for(*parts))
+
+
+def clamp_ranges(x):
+    """In-place: keep the span of literal in_range / not_in_range bounds small everywhere in a
+    case.  `v in range(lo, hi)` walks the whole range for a non-int v (in C, uninterruptibly), so
+    a span of 2**31 is hours of run time - a cost, never a verdict, and outside every property."""
+    if type(x) is list:
+        for i in x:
+            clamp_ranges(i)
+    elif type(x) is dict:
+        if x.get("c") == "leaf" and x.get("fn") in ("in_range", "not_in_range"):
+            a = x.get("args") or []
+            kw = x.get("kwargs") or {}
+            lo = a[0] if len(a) > 0 else kw.get("lower")
+            hi = a[1] if len(a) > 1 else kw.get("upper")
+            if isinstance(lo, (int, float)) and isinstance(hi, (int, float)) and abs(hi - lo) > 5000:
+                new_hi = lo + 7 if isinstance(lo, int) else 7
+                if len(a) > 1:
+                    a[1] = new_hi
+                else:
+                    kw["upper"] = new_hi
+        for v in x.values():
+            clamp_ranges(v)
+    return x
